@@ -193,6 +193,12 @@ def run(ctx: common.Run):
             dims = [2, 2]
             k = 2
         op2, wname = wrap(cirq, rng, op) if not qudit else (op, 'none')
+        if wname == 'circuit-op-remapped' and set(op2.qubits) != set(op.qubits):
+            ctx.count('wrapper', wname)
+            ctx.report_witness('wrapper:circuit-op-remapped:qubits', 'a sub-circuit operation re-mapped around a cycle of qubit maps (whose composition is the identity) does not end up on its own qubits',
+                               {'lines': [{'op': repr(op), 'wrapped': repr(op2)}], 'impl_out': [[repr(q) for q in op2.qubits]], 'spec_out': [[repr(q) for q in op.qubits]],
+                                'theorem_or_correspondence': 'wrapper no-op (qubit maps compose)'})
+            continue
         if tuple(op2.qubits) != tuple(op.qubits):
             op2, wname = op, 'none'  # a CircuitOperation lists its qubits in sorted order: a different (equally valid) matrix layout
         u = gen.op_unitary(cirq, op)
